@@ -71,8 +71,16 @@ RUNS = [
     {"sort": [{"key": "ftime", "desc": True}], "limit": 4, "skip": 2, "ids": list(range(10, 40))},
     {"sort": [], "limit": 3, "skip": 0, "ids": [7, 8, 9, 40, 41, 63]},
 ]
+# grouping: one stream per group
+RUNS += [
+    {"sort": [{"key": "id", "desc": False}], "limit": 0, "skip": 0, "group": ["sport"]},
+    {"sort": [{"key": "id", "desc": True}], "limit": 0, "skip": 0, "group": ["cport", "sport"]},
+    {"sort": [{"key": "ftime", "desc": False}, {"key": "id", "desc": False}], "limit": 3, "skip": 0, "group": ["chost"]},
+    {"sort": [{"key": "id", "desc": False}], "limit": 2, "skip": 1, "group": ["sport", "shost"]},
+]
 for _r in RUNS:
     _r.setdefault("ids", [])
+    _r.setdefault("group", [])
 
 
 def shape(ast):
@@ -160,6 +168,8 @@ def run(ctx):
             try:
                 r = json.loads(f["info"])
                 extra = "|sort=%s|limit%s" % (",".join(s["key"] for s in r["sort"]) or "default", ">0" if r["limit"] else "=0")
+                if r.get("group"):
+                    extra += "|group"
             except Exception:
                 pass
         ctx.violation("%s:%s%s" % (f["what"], shape(c["ast"]), extra), "%s for query %s (%s)" % (f["what"], c["text"], f["info"][:300]),
